@@ -286,3 +286,61 @@ Print Assumptions C10_must_fail_fails.
 Print Assumptions C10_case_failure.
 Print Assumptions C10_case_success.
 Print Assumptions C10_holds.
+
+(** ** TrailerHold is the one re-translated from the Rust source on this run (bin/rs2v,
+    sinks-and-sessions mode: Gen/SvsGen.v, Proofs/SvsGenAgree.v).  The inner writer is the list of
+    the [write_all] calls made on it ([iw_done]) with a budget of calls that succeed ([iw_left];
+    [None]: it never fails -- the model has no failing write; [Some k]: the k+1-th call fails, and
+    then [write] returns that error having made exactly the first k of the model's calls). *)
+From RepeV Require Import Base.GenSvsPrelude Gen.SvsGen Proofs.SvsGenAgree.
+
+Theorem C10_source_translation :
+  match gen_hold_new with Some f => forall inner n, f inner n = Ok (mkHold inner [] n) | None => True end /\
+  match gen_hold_into_trailer with
+  | Some f => forall h n, th_trailer_len h = N.of_nat n ->
+      f h = Ok (if into_trailer_errors n (th_hold h) then RErr IoUnexpectedEof else ROk (th_hold h))
+  | None => True
+  end /\
+  match gen_hold_write with
+  | Some f => forall h buf n, iw_left (th_inner h) = None -> th_trailer_len h = N.of_nat n ->
+      f h buf = Ok (ROk (len_n buf),
+                    mkHold (mkInner (iw_done (th_inner h) ++ fst (hold_write n (th_hold h) buf)) None)
+                           (snd (hold_write n (th_hold h) buf)) (N.of_nat n))
+  | None => True
+  end /\
+  match gen_hold_write with
+  | Some f => forall h buf n k, iw_left (th_inner h) = Some k -> th_trailer_len h = N.of_nat n ->
+      let ws := fst (hold_write n (th_hold h) buf) in
+      if (length ws <=? k)%nat then
+        f h buf = Ok (ROk (len_n buf),
+                      mkHold (mkInner (iw_done (th_inner h) ++ ws) (Some (k - length ws)%nat)) (snd (hold_write n (th_hold h) buf)) (N.of_nat n))
+      else exists hd, f h buf = Ok (RErr IoOther, mkHold (mkInner (iw_done (th_inner h) ++ firstn k ws) (Some O)) hd (N.of_nat n))
+  | None => True
+  end.
+Proof. exact c10_source_translation. Qed.
+
+Check C10_source_translation :
+  match gen_hold_new with Some f => forall inner n, f inner n = Ok (mkHold inner [] n) | None => True end /\
+  match gen_hold_into_trailer with
+  | Some f => forall h n, th_trailer_len h = N.of_nat n ->
+      f h = Ok (if into_trailer_errors n (th_hold h) then RErr IoUnexpectedEof else ROk (th_hold h))
+  | None => True
+  end /\
+  match gen_hold_write with
+  | Some f => forall h buf n, iw_left (th_inner h) = None -> th_trailer_len h = N.of_nat n ->
+      f h buf = Ok (ROk (len_n buf),
+                    mkHold (mkInner (iw_done (th_inner h) ++ fst (hold_write n (th_hold h) buf)) None)
+                           (snd (hold_write n (th_hold h) buf)) (N.of_nat n))
+  | None => True
+  end /\
+  match gen_hold_write with
+  | Some f => forall h buf n k, iw_left (th_inner h) = Some k -> th_trailer_len h = N.of_nat n ->
+      let ws := fst (hold_write n (th_hold h) buf) in
+      if (length ws <=? k)%nat then
+        f h buf = Ok (ROk (len_n buf),
+                      mkHold (mkInner (iw_done (th_inner h) ++ ws) (Some (k - length ws)%nat)) (snd (hold_write n (th_hold h) buf)) (N.of_nat n))
+      else exists hd, f h buf = Ok (RErr IoOther, mkHold (mkInner (iw_done (th_inner h) ++ firstn k ws) (Some O)) hd (N.of_nat n))
+  | None => True
+  end.
+
+Print Assumptions C10_source_translation.
